@@ -118,9 +118,10 @@ class FmtPure(Pure):
 
 class InlinePure(Pure):
     """inlines calls of _check_convert_index (translated from its own source) at tuple-unpacking assignments"""
-    def __init__(self, fn_node, spec, callee):
-        super().__init__(fn_node, spec)
+    def __init__(self, fn_node, spec, callee, module=None, cls=None):
+        super().__init__(fn_node, spec, module=module, cls=cls)
         self.callee = callee
+        spec.siblings = dict(spec.siblings); spec.siblings[callee.name] = None
 
     def expr(self, e, env, binds):
         if isinstance(e, ast.Name) and e.id in ("int", "float", "slice", "str") and e.id not in env:
@@ -192,6 +193,7 @@ HEADER = ["(* generated from auditok/core.py, io.py, util.py - do not edit *)",
 
 GROUPS = {
     # group -> (generated file, tie file, tie lemmas)
+    "split": ("GenSplit.v", "TieSplit.v", ["tie_split_params", "tie_split_params_reader"]),
     "dur": ("GenDur.v", "TieDur.v", ["tie_epsilon", "tie_nbw_floor", "tie_nbw_ceil", "tie_split_calls"]),
     "region": ("GenRegion.v", "TieRegion.v", ["tie_getitem", "tie_sec_bounds", "tie_ms_bounds"]),
     "silence": ("GenSilence.v", "TieSilence.v", ["tie_make_silence"]),
@@ -214,16 +216,17 @@ def gen_dur(repo):
     out.append("Definition EPSILON : f64 := %s.   (* core._EPSILON = %r *)\n" % (flit(consts["_EPSILON"]), consts["_EPSILON"]))
     fn = find_function(core, "_duration_to_nb_windows")
     sp = Spec("nbw_gen", [("duration", "F"), ("analysis_window", "F"), ("round_fn", "round_fn"), ("epsilon", "F")], ret_result_Z)
-    out.append(Pure(fn, sp).translate())
+    out.append(Pure(fn, sp, module=core).translate())
     # how split() calls it: (duration variable, rounding function, sign of the epsilon) per derived count
-    sp_fn = find_function(core, "split")
     calls = {}
-    for n in ast.walk(sp_fn):
+    for n in ast.walk(core):        # split() itself, or helpers a refactoring may have moved the derivation into
         if isinstance(n, ast.Assign) and len(n.targets) == 1 and isinstance(n.targets[0], ast.Name) and isinstance(n.value, ast.Call) \
                 and isinstance(n.value.func, ast.Name) and n.value.func.id == "_duration_to_nb_windows":
             a = n.value.args
             if len(a) != 4 or n.value.keywords:
                 bad(n, "call of _duration_to_nb_windows in split()")
+            if n.targets[0].id in calls:
+                bad(n, "window count %s derived twice" % n.targets[0].id)
             calls[n.targets[0].id] = (ast.unparse(a[0]), ast.unparse(a[1]), ast.unparse(a[2]), ast.unparse(a[3]))
     out.append("Definition split_calls : list (string * (string * string * string * string)) := [")
     rows = ['  ("%s", ("%s", "%s", "%s", "%s"))' % ((k,) + v) for k, v in sorted(calls.items())]
@@ -242,15 +245,16 @@ def gen_region(repo):
     sp = Spec("getitem_gen", [("index", "slice_Z")], ret_region,
               self_attrs={"sample_width": ("sw", "Z"), "channels": ("ch", "Z"), "data": ("data", "bytes"), "sr": ("sr", "Z"), "sw": ("sw", "Z"), "ch": ("ch", "Z")})
     sp.extra_params = ["(data : list B)", "(sr sw ch : Z)"]
-    out.append(InlinePure(fn, sp, cci).translate())
+    region_cls = next(n for n in core.body if isinstance(n, ast.ClassDef) and n.name == "AudioRegion")
+    out.append(InlinePure(fn, sp, cci, module=core, cls=region_cls).translate())
     out.append("End Bytes.\n")
     fn = find_function(core, "_SecondsView.__getitem__")
     sp = Spec("sec_bounds_gen", [("index", "slice_F")], ret_pair_opt, self_attrs={"_region.sampling_rate": ("sr", "Z"), "_region": ("", "region")})
     sp.extra_params = ["(sr : Z)"]
-    out.append(InlinePure(fn, sp, cci).translate())
+    out.append(InlinePure(fn, sp, cci, module=core, cls=next(n for n in core.body if isinstance(n, ast.ClassDef) and n.name == "_SecondsView")).translate())
     fn = find_function(core, "_MillisView.__getitem__")
     sp = Spec("ms_bounds_gen", [("index", "slice_Z")], ret_pair_opt, self_attrs={})
-    out.append(InlinePure(fn, sp, cci).translate())
+    out.append(InlinePure(fn, sp, cci, module=core, cls=next(n for n in core.body if isinstance(n, ast.ClassDef) and n.name == "_MillisView")).translate())
     return "\n".join(out)
 
 
@@ -268,7 +272,9 @@ def gen_silence(repo):
                 return V("(repeat %d (Z.to_nat %s))" % (e.left.value[0], n.text), "bytes")
             return super().expr(e, env, binds)
     sp = Spec("make_silence_gen", [("duration", "F"), ("sampling_rate", "Z"), ("sample_width", "Z"), ("channels", "Z")], ret_make_region)
-    out.append(SilPure(fn, sp).translate())
+    tr_ = SilPure(fn, sp)
+    tr_.module = core
+    out.append(tr_.translate())
     return "\n".join(out)
 
 
@@ -296,7 +302,7 @@ def gen_buf(repo):
         sp = Spec(coq, params, ret, self_attrs=BUF_ATTRS, state=BUF_STATE)
         sp.extra_params = ["(a : audio B)", "(s : bstate)"]
         sp.ret_type = "bstate * @out B"
-        out.append(BufPure(node, sp).translate())
+        out.append(BufPure(node, sp, module=io_, cls=next(n for n in io_.body if isinstance(n, ast.ClassDef) and n.name == "BufferAudioSource")).translate())
     out.append("End Buf.\n")
     return "\n".join(out)
 
@@ -305,19 +311,191 @@ def gen_fmt(repo):
     util = ast.parse(open(os.path.join(repo, "auditok", "util.py")).read())
     out = list(HEADER)
     mk = find_function(util, "make_duration_formatter")
-    cands = [n for n in ast.walk(mk) if isinstance(n, ast.FunctionDef) and n.name == "formatter"
-             and any(isinstance(c, ast.Call) and isinstance(c.func, ast.Name) and c.func.id == "divmod" for c in ast.walk(n))]
+    # the closure that renders the %h %m %s %i template: the one returning fmt.format(hrs=..., mins=..., secs=..., millis=...)
+    cands = [n for n in ast.walk(mk) if isinstance(n, ast.FunctionDef) and n is not mk
+             and any(isinstance(c, ast.Call) and isinstance(c.func, ast.Attribute) and c.func.attr == "format"
+                     and sorted(k.arg or "" for k in c.keywords) == ["hrs", "millis", "mins", "secs"] for c in ast.walk(n))]
     if len(cands) != 1:
-        raise TranslationError("the field formatter (with divmod) was not found exactly once in make_duration_formatter")
+        raise TranslationError("the field formatter (returning fmt.format(hrs=, mins=, secs=, millis=)) was not found exactly once in make_duration_formatter")
 
     def ret_none(tr, v, env, node):
         bad(node, "unexpected return")
     sp = Spec("fields_gen", [("seconds", "F")], ret_none)
-    out.append(FmtPure(cands[0], sp).translate())
+    out.append(FmtPure(cands[0], sp, module=util).translate())
     return "\n".join(out)
 
 
-GENERATORS = {"dur": gen_dur, "region": gen_region, "silence": gen_silence, "buf": gen_buf, "fmt": gen_fmt}
+TRACKED = ("min_dur", "max_dur", "max_silence", "analysis_window", "min_length", "max_length", "max_continuous_silence")
+
+
+class SplitPure(Pure):
+    """inlines `x = _duration_to_nb_windows(d, w, round_fn, eps)` from the callee's own source"""
+    def __init__(self, fn_node, spec, callee, consts, module=None):
+        super().__init__(fn_node, spec, module_consts=consts, module=module)
+        self.callee = callee
+        spec.siblings = dict(spec.siblings); spec.siblings[callee.name] = None
+
+    def block(self, stmts, env, k):
+        if stmts and isinstance(stmts[0], ast.Assign) and isinstance(stmts[0].targets[0], ast.Name) and isinstance(stmts[0].value, ast.Call) \
+                and isinstance(stmts[0].value.func, ast.Name) and stmts[0].value.func.id == self.callee.name:
+            st, rest = stmts[0], stmts[1:]
+            call = st.value
+            params = [a.arg for a in self.callee.args.args]
+            if len(call.args) != len(params) or call.keywords:
+                bad(st, "call of %s" % self.callee.name)
+            binds = []
+            cenv = {p: self.expr(a, env, binds) for p, a in zip(params, call.args)}
+            if binds:
+                bad(st, "partial conversion in an argument")
+            target = st.targets[0].id
+            saved_ret = self.spec.ret
+            outer = self
+
+            def callee_ret(tr, v, cenv2, n):
+                if v.ty == "error":
+                    return saved_ret(tr, v, env, n)
+                if v.ty != "Z":
+                    bad(n, "%s should return an int" % outer.callee.name)
+                nm = outer.new(target)
+                env2 = dict(env); env2[target] = V(nm, "Z")
+                outer.spec.ret = saved_ret
+                try:
+                    return "(let %s := %s in %s)" % (nm, v.text, outer.block(rest, env2, k))
+                finally:
+                    outer.spec.ret = callee_ret
+            self.spec.ret = callee_ret
+            try:
+                return self.block(list(self.callee.body), cenv, lambda e2: bad(st, "%s falls off its end" % self.callee.name))
+            finally:
+                self.spec.ret = saved_ret
+        return super().block(stmts, env, k)
+
+
+def _mentions(node, names):
+    return any(isinstance(n, ast.Name) and n.id in names for n in ast.walk(node))
+
+
+def _assigns(node, names):
+    for n in ast.walk(node):
+        if isinstance(n, (ast.Assign, ast.AugAssign, ast.AnnAssign)):
+            tg = n.targets if isinstance(n, ast.Assign) else [n.target]
+            for t in tg:
+                for m in ast.walk(t):
+                    if isinstance(m, ast.Name) and m.id in names:
+                        return True
+    return False
+
+
+def slice_split(core, reader_input):
+    """The statements of split() that decide the window counts, in source order (a program slice on TRACKED).
+    Kept: assignments to tracked names, `raise` statements, and the `if` statements around them (their tests may only
+    mention tracked names). Skipped: statements that neither assign a tracked name nor raise (validator, mode, message
+    strings, tokenizer, generators). The isinstance(input, AudioReader) test selects the branch; the construction of the
+    AudioReader (non-reader inputs) is replaced by the block-size test it performs (modelled by hand:
+    block = int(analysis_window * sampling_rate), ValueError when 0)."""
+    fn = find_function(core, "split")
+    state = {"saw_reader": False}
+
+    def reader_test(test):
+        """+1: isinstance(input, AudioReader); -1: its negation; 0: something else"""
+        neg = False
+        if isinstance(test, ast.UnaryOp) and isinstance(test.op, ast.Not):
+            neg, test = True, test.operand
+        if isinstance(test, ast.Call) and isinstance(test.func, ast.Name) and test.func.id == "isinstance" and len(test.args) == 2 \
+                and isinstance(test.args[0], ast.Name) and test.args[0].id == "input" and isinstance(test.args[1], ast.Name) and test.args[1].id == "AudioReader":
+            return -1 if neg else 1
+        return 0
+
+    def filt(stmts, in_reader_branch=None):
+        out = []
+        for st in stmts:
+            if isinstance(st, ast.Expr) and isinstance(st.value, ast.Constant):
+                continue
+            if isinstance(st, ast.If) and reader_test(st.test):
+                is_reader_body = reader_test(st.test) == 1
+                rb, nb = (st.body, st.orelse) if is_reader_body else (st.orelse, st.body)
+                out.extend(filt(rb, True) if reader_input else filt(nb, False))
+                continue
+            if isinstance(st, ast.Assign) and len(st.targets) == 1 and isinstance(st.targets[0], ast.Name) and st.targets[0].id == "analysis_window" \
+                    and in_reader_branch is not None:
+                src = ast.unparse(st.value)
+                if in_reader_branch and src != "source.block_dur":
+                    bad(st, "analysis_window of an AudioReader input is not source.block_dur")
+                if not in_reader_branch and "kwargs.get" not in src:
+                    bad(st, "analysis_window is not taken from the keyword arguments")
+                continue                    # the parameter of the generated function
+            if isinstance(st, ast.Try) and "AudioReader(" in ast.unparse(st) and "block_dur=analysis_window" in ast.unparse(st).replace(" ", ""):
+                if in_reader_branch is not False:
+                    bad(st, "AudioReader constructed outside the non-reader branch")
+                state["saw_reader"] = True
+                out.extend(ast.parse("block_size = int(analysis_window * sampling_rate)\nif block_size == 0:\n    raise ValueError()").body)
+                continue
+            if isinstance(st, ast.If):
+                body, orelse = filt(st.body, in_reader_branch), filt(st.orelse, in_reader_branch)
+                if body or orelse:
+                    for n in ast.walk(st.test):
+                        if isinstance(n, ast.Name) and n.id not in TRACKED:
+                            bad(st, "a test deciding the window counts mentions %s" % n.id)
+                    new = ast.If(test=st.test, body=body or [ast.Pass()], orelse=orelse)
+                    out.append(ast.fix_missing_locations(ast.copy_location(new, st)))
+                continue
+            if isinstance(st, ast.Raise):
+                out.append(st); continue
+            if isinstance(st, ast.Assign) and _assigns(st, TRACKED):
+                out.append(st); continue
+            if isinstance(st, ast.AugAssign) and _assigns(st, TRACKED):
+                out.append(st); continue
+            if _assigns(st, TRACKED):
+                bad(st, "tracked name assigned inside an unsupported statement")
+            # anything else does not touch the tracked names
+        return out
+    kept = filt(fn.body)
+    # a raise that is not guarded by a kept test would make the slice raise unconditionally: only guarded raises are meaningful
+    if any(isinstance(x, ast.Raise) for x in kept):
+        bad(fn, "unconditional raise in split()")
+    if not reader_input and not state["saw_reader"]:
+        bad(fn, "construction of the AudioReader with block_dur=analysis_window not found")
+    if reader_input:
+        ret = "return (min_length, max_length, max_continuous_silence)"
+        args = "min_dur, max_dur, max_silence, analysis_window"
+    else:
+        ret = "return (min_length, max_length, max_continuous_silence, block_size)"
+        args = "min_dur, max_dur, max_silence, analysis_window, sampling_rate"
+    f = ast.parse("def split_params_slice(%s):\n    pass" % args).body[0]
+    f.body = kept + ast.parse(ret).body
+    return ast.fix_missing_locations(f)
+
+
+def ret_counts(tr, v, env, node):
+    if v.ty == "error":
+        return v.text
+    if v.ty != "tuple" or any(x.ty != "Z" for x in v.const):
+        bad(node, "expected a tuple of window counts")
+    return "Ok (%s)" % ", ".join(x.text for x in v.const)
+
+
+def gen_split(repo):
+    core = ast.parse(open(os.path.join(repo, "auditok", "core.py")).read())
+    out = list(HEADER)
+    consts = {}
+    from .pure import flit
+    for n in core.body:
+        if isinstance(n, ast.Assign) and len(n.targets) == 1 and isinstance(n.targets[0], ast.Name) and isinstance(n.value, ast.Constant) \
+                and isinstance(n.value.value, float):
+            consts[n.targets[0].id] = V(flit(n.value.value), "F", n.value.value, True)
+    callee = find_function(core, "_duration_to_nb_windows")
+    f1 = slice_split(core, False)
+    sp = Spec("split_params_gen", [("min_dur", "F"), ("max_dur", "F"), ("max_silence", "F"), ("analysis_window", "F"), ("sampling_rate", "Z")], ret_counts)
+    out.append("(* slice of split() for inputs that are not an AudioReader:\n" + ast.unparse(f1) + "\n*)")
+    out.append(SplitPure(f1, sp, callee, consts, module=core).translate())
+    f2 = slice_split(core, True)
+    sp = Spec("split_params_reader_gen", [("min_dur", "F"), ("max_dur", "F"), ("max_silence", "F"), ("analysis_window", "F")], ret_counts)
+    out.append("(* slice of split() for an AudioReader input (analysis_window = source.block_dur):\n" + ast.unparse(f2) + "\n*)")
+    out.append(SplitPure(f2, sp, callee, consts, module=core).translate())
+    return "\n".join(out)
+
+
+GENERATORS = {"split": gen_split, "dur": gen_dur, "region": gen_region, "silence": gen_silence, "buf": gen_buf, "fmt": gen_fmt}
 
 
 def emit_group(repo, group):
